@@ -210,6 +210,11 @@ func genC06(t *rapid.T) *C06Case {
 		}
 		renameIdent(c.File, scs[i].Name, scs[j].Name+rapid.SampledFrom([]string{"_Text_Sign", "_Movement_Walk", "_Text_", "_Text_0x"}).Draw(t, "prefixstem"))
 	}
+	if rapid.IntRange(0, 5).Draw(t, "constnamedliketext") == 0 {
+		// a constant spelled like the whole content of an inline string: text content is never substituted
+		name := rapid.SampledFrom([]string{"Hello", "x"}).Draw(t, "constname")
+		c.File.Tops = append([]*Top{{K: "const", Const: &Const{Name: name, Val: []string{"Bye", "now"}}}}, c.File.Tops...)
+	}
 	// AutoVar commands may occur several times: make each occurrence identifiable
 	{
 		names, blocks := EntryBlocks(c.File)
